@@ -44,6 +44,7 @@ RULES = {
     "R3": "`for (i, b) in X.iter_mut().enumerate() { *b .. }` / `for b in X.iter_mut()` -> index loop with X[i]",
     "R4": "`for i in (a..b).rev() {` -> descending while loop",
     "R5": "consuming map iteration `for (k, v) in M {` -> `for (k__r, v__r) in M.iter() { let k = *k__r; let v = *v__r;` (M dead afterwards; value type made Copy in the assembled file, so the copy equals the moved value)",
+    "R6w": "`write!/writeln!(W, LIT, args)[.expect(..)]` -> overlay-declared stub `wfmt__N(W, args)` with a precondition on the formatted values",
     "R6": "`format!(..)` -> call of an overlay-declared stub `fmt__K(args)` (uninterpreted result unless stated and discharged by enumeration)",
     "R25": "`for x in NAME {` / `for x in &E {` -> `for x in E.iter() {`",
     "R20": "`for b in S.bytes() {` -> `for b__r in S.as_bytes().iter() { let b = *b__r;` (definition of str::bytes)",
@@ -232,6 +233,43 @@ def apply_common_rules(text, ed, rules, log, where):
                 else:
                     ed.replace(toks[p2].start, toks[n1].end, f"{pre}_{toks[p2].text}_arr(")
                 log.append(("R14", where, text[toks[p2].start:toks[e].end][:80]))
+    if "R6w" in rules:
+        # `write!(W, LIT, args..)[.expect(..)]` / `writeln!(..)` -> `wfmt__N(W, captured.., args..)` (N = number of values):
+        # overlay-declared generic stubs whose precondition is that every formatted value is printable as PDF syntax
+        i = 0
+        while i < len(toks):
+            t = toks[i]
+            if t.kind == "ident" and t.text in ("write", "writeln"):
+                j = next_code(toks, i)
+                k = next_code(toks, j) if j is not None else None
+                pv = prev_code(toks, i)
+                if j is not None and toks[j].text == "!" and k is not None and toks[k].text == "(" and not (pv is not None and toks[pv].text in (".", "::")):
+                    e = match_forward(toks, k)
+                    # first argument up to the first top-level comma
+                    depth = 0; c1 = None
+                    for q in range(k + 1, e):
+                        x = toks[q]
+                        if x.kind == "punct" and x.text in OPEN_SET: depth += 1
+                        elif x.kind == "punct" and x.text in CLOSE_SET: depth -= 1
+                        elif x.kind == "punct" and x.text == "," and depth == 0: c1 = q; break
+                    if c1 is None: raise ExtractError(f"unsupported-construct: {where}: write! without format string")
+                    w_expr = text[toks[k].end:toks[c1].start].strip()
+                    lit = next_code(toks, c1)
+                    if toks[lit].kind != "str": raise ExtractError(f"unsupported-construct: {where}: write! without a literal")
+                    caps = []
+                    for m in re.finditer(r"\{\{|\}\}|\{([A-Za-z_][A-Za-z0-9_]*)?(:[^}]*)?\}", toks[lit].text):
+                        if m.group(0) in ("{{", "}}"): continue
+                        if m.group(1): caps.append(m.group(1))
+                    rest = text[toks[lit].end:toks[e].start].strip()
+                    if rest.startswith(","): rest = rest[1:].strip()
+                    rest = rest.rstrip(",").strip()
+                    args = [c for c in caps] + ([rest] if rest else [])
+                    nvals = len(caps) + (len([a for a in rest.split(",") if a.strip()]) if rest else 0)
+                    end = e
+                    ed.replace(t.start, toks[end].end, f"wfmt__{nvals}({', '.join([w_expr] + args)})")
+                    log.append(("R6w", where, text[t.start:toks[e].end][:90].replace("\n", " ")))
+                    i = end + 1; continue
+            i += 1
     if "R6" in rules:
         # format!(LIT, args..) -> fmt__K(captured.., args..): an overlay-declared stub whose result is an uninterpreted
         # (or Ec-discharged) function of the argument values
